@@ -551,6 +551,13 @@ func coherentRefinementExt(t *rapid.T, kind int) []byte {
 		e := append([]byte{0x02}, mpMakeHeader('s', uint32(len(p)), false, 0)...)
 		entries = append(entries, append(e, p...))
 	}
+	if kind <= 1 && rapid.IntRange(0, 3).Draw(t, "repeat") == 0 {
+		// a repeated length key with another value (the builder keeps the
+		// tighter bound, whatever a decoder-side check remembers)
+		e := append([]byte{byte(5 + rapid.IntRange(0, 1).Draw(t, "repkey"))}, mpUint(rapid.SampledFrom(hostileRefInts).Draw(t, "repval"))...)
+		at := rapid.IntRange(0, len(entries)).Draw(t, "repat")
+		entries = append(entries[:at], append([][]byte{e}, entries[at:]...)...)
+	}
 	if rapid.IntRange(0, 3).Draw(t, "shuffle") == 0 && len(entries) > 1 {
 		entries[0], entries[len(entries)-1] = entries[len(entries)-1], entries[0]
 	}
